@@ -4,11 +4,13 @@ import core, findings
 import os
 from core import World, hx, parse_fs
 from gen import Gen, mode_line, cfg_line
+import jsonlens
 from suites import run_suite, parse_snap
 import docs
 from docs import Doc, flatten, parse_flat, replace_subtree
 
-LEAN_MODULES = ['GoSnaps.Props.C15', 'GoSnaps.Props.Tie.Flows', 'GoSnaps.Props.Tie.Matchers']
+LEAN_MODULES = ['GoSnaps.Props.C15', 'GoSnaps.Props.Tie.Flows', 'GoSnaps.Props.Tie.Matchers',
+                'GoSnaps.DriverX', 'GoSnaps.Lemmas.JsonPath', 'GoSnaps.Props.C16Json']
 
 
 def set_path(v, fp, newv):
@@ -441,6 +443,7 @@ def yaml_fixed_worlds():
 
 
 def run(ctx):
+    jsonlens.run_json_lens(ctx)
     g = Gen(ctx.seed * 1000003 + 15)
     docs.STYLE = g.r
     n = 400 if ctx.tier == 'quick' else 12000
